@@ -11,12 +11,20 @@ pub mod print {
             Segment::Descendant(b) => format!("..{}", seg(b)),
         }
     }
-    fn quote(s: &str) -> String {
-        let mut o = String::from("'");
-        for c in s.chars() { match c { '\'' => o.push_str("\\'"), '\\' => o.push_str("\\\\"), c => o.push(c) } }
-        o.push('\'');
+    /// the text between the quotes of a single-quoted string literal / name selector that denotes `s` (RFC 9535 2.3.1.1)
+    pub fn escape_body(s: &str) -> String {
+        let mut o = String::new();
+        for c in s.chars() {
+            match c {
+                '\'' => o.push_str("\\'"), '\\' => o.push_str("\\\\"),
+                '\u{8}' => o.push_str("\\b"), '\u{c}' => o.push_str("\\f"), '\n' => o.push_str("\\n"), '\r' => o.push_str("\\r"), '\t' => o.push_str("\\t"),
+                c if (c as u32) < 0x20 => o.push_str(&format!("\\u{:04X}", c as u32)),
+                c => o.push(c),
+            }
+        }
         o
     }
+    fn quote(s: &str) -> String { format!("'{}'", escape_body(s)) }
     fn sel(s: &Selector) -> String {
         match s {
             Selector::Name(t) => if t.starts_with('\'') || t.starts_with('"') { t.clone() } else { quote(t) },
